@@ -1,6 +1,6 @@
 """Contract language (sidecar specs live in /verif/specs/*.py and register contracts here)."""
 import z3
-from .core import (Val, VNone, VTrue, VFalse, VInt, VStr, VBool, VRef, VFloat, I, B, S, R, ArrIV, ClassName, IsSub,
+from .core import (tkey, Val, VNone, VTrue, VFalse, VInt, VStr, VBool, VRef, VFloat, I, B, S, R, ArrIV, ClassName, IsSub,
                    StrOf, IntOk, IntOf, Lower, Strip, Basename, IdStr, TYPEBASE, Unsupported, SymCallable)
 from .front import mangle
 
@@ -442,13 +442,13 @@ class SpecCtx:
 
     def elems(self, listval, p):
         """Declare the sort of the elements of a list value (used when the code iterates over it)."""
-        self.I.st.ghost.setdefault("elem_sorts", {})[str(z3.simplify(listval))] = p
+        self.I.st.ghost.setdefault("elem_sorts", {})[tkey(listval)] = p
         return z3.BoolVal(True)
 
     def dict_values(self, dictval, p):
         """Declare the sort of the values of an agent-owned dictionary."""
-        self.I.st.ghost.setdefault("dict_value_sorts", {})[str(z3.simplify(dictval))] = p
-        self.I.st.ghost["dict_value_sorts"]["r:" + str(z3.simplify(Val.r(dictval)))] = p
+        self.I.st.ghost.setdefault("dict_value_sorts", {})[tkey(dictval)] = p
+        self.I.st.ghost["dict_value_sorts"]["r:" + tkey(Val.r(dictval))] = p
         return z3.BoolVal(True)
 
     def enum(self, clsname, member):
